@@ -506,7 +506,6 @@ type HashContext = {
 type Hash256Context = {
   writer: Hash256Writer;
   active: Map<Runtype, number>;
-  nextCycleId: number;
 };
 
 export interface Runtype {
@@ -2420,8 +2419,9 @@ export abstract class BaseRefRuntype extends BaseRuntype {
       return;
     }
 
-    const id = ctx.nextCycleId;
-    ctx.nextCycleId++;
+    // a back reference names its target by the stream offset at which the target's encoding starts: expansions that
+    // are never referred back to leave no trace, so a counter of expansions would not say which enclosing type is meant
+    const id = ctx.writer.position();
     ctx.active.set(to, id);
     to.hash256(ctx);
     ctx.active.delete(to);
@@ -2567,7 +2567,6 @@ class ParserFromRuntype implements BeffParser<any> {
     const ctx: Hash256Context = {
       writer: new Hash256Writer(),
       active: new Map(),
-      nextCycleId: 0,
     };
     ctx.writer.updateTag("beff-hash256-v1");
     this._runtype.hash256(ctx);
